@@ -205,12 +205,14 @@ CLAIMED.update({
               "the other two as tie-breakers', location ties broken by entry address (declaration order), over ASSUMED leaf comparisons. "
               "Bounded Kani harnesses on the real comparators: integer argument names (1-2 digits, optional minus) of different value compare "
               "numerically under the name and kind attributes and never reach the textual comparison (the repaired defect); location order of "
-              "arguments is declaration order; each attribute list has the chosen attribute first and each once (complete). Thorough tier: "
-              "cmp_int / natural_cmp compare digit runs by value and natural_cmp is reflexive and antisymmetric on short strings. Verus also proves, for every ArgMatches, on the region of the real Divan::config_with_args that copies parsed arguments into the runner (verified in chunks of five statements and composed): --sortr ATTR sets that attribute and the reverse flag, --sort ATTR that attribute ascending, sortr winning; run_action sorts the tree once, by the "
+              "arguments is declaration order; each attribute list has the chosen attribute first and each once (complete); natural_cmp compares a run of 1 "
+              "digit with a run of 1 or 2 digits by numeric value, leading zeros included (quick), runs of 2 digits with runs of 2 or 3 digits (thorough, "
+              "7-10 min each). Verus also proves, for every ArgMatches, on the region of the real Divan::config_with_args that copies parsed arguments into the runner (verified in chunks of five statements and composed): --sortr ATTR sets that attribute and the reverse flag, --sort ATTR that attribute ascending, sortr winning; run_action sorts the tree once, by the "
               "runner's attribute and direction, right before walking it; and the closures EntryTree::sort_by_attr gives to the std sorts (outlined): the "
               "node comparator is cmp_by_attr, exactly reversed under --sortr; the argument comparator is cmp_bench_arg_names, exactly reversed under --sortr; "
               "the recursion passes the same attribute and direction."),
-        note=("str::parse::<f64> is stubbed to Err (CBMC cannot take dec2flt), so float names are not covered. The leaf comparisons under "
+        note=("str::parse::<f64> is stubbed to Err (CBMC cannot take dec2flt), so float names are not covered; natural_cmp on mixed text / digit strings "
+              "gives CBMC no answer within 25 min (experimental tier only), so tokenisation of mixed names is not covered. The leaf comparisons under "
               "EntryTree::cmp_by_attr (kind, display name, location, address) are assumed; the std sorts themselves ('sorting only permutes') are assumed. "
               "Category 'other' because the name comparators are bounded only; only cmp_by_attr and with_tie_breakers are proved."),
         technique="Verus contract on the real cmp_by_attr (proved) + bounded Kani harnesses on the name comparators (bounded stand-in)",
